@@ -63,6 +63,7 @@ const (
 	groupHostile = 4_000_000
 	groupMulti   = 5_000_000
 	mx2Name      = "mx2.example.invalid"
+	mx3Name      = "mx3.example.invalid"
 )
 
 // ---------------------------------------------------------------- PKI with keys
@@ -85,7 +86,18 @@ func newXPKI(base *world) *xPKI {
 		p.certs[host+"/"+chain] = tc
 		p.state[host+"/"+chain] = &state{name: "e2ex:" + chain, leafKind: leafKind, hs: true, host: host, chain: cs, chainsTo: make([]int8, len(cs))}
 	}
-	for _, host := range []string{mxName, mx2Name} {
+	// with appends the certificate of the unrelated CA (no key needed: a server
+	// may send any certificate it likes after its own) to a server chain.
+	with := func(tc tls.Certificate, extra ...*x509.Certificate) tls.Certificate {
+		out := tls.Certificate{PrivateKey: tc.PrivateKey, Leaf: tc.Leaf}
+		out.Certificate = append(out.Certificate, tc.Certificate...)
+		for _, c := range extra {
+			out.Certificate = append(out.Certificate, c.Raw)
+		}
+		return out
+	}
+	un := base.otherCA
+	for _, host := range []string{mxName, mx2Name, mx3Name} {
 		l := inter.Leaf(certs.LeafOpts{DNSNames: []string{host}})
 		add(host, "valid", "ok", l.TLSCertificate(inter), l.Cert, inter.Cert)
 		e := inter.Leaf(certs.LeafOpts{DNSNames: []string{host}, NotAfter: base.now.Add(-48 * time.Hour)})
@@ -94,6 +106,15 @@ func newXPKI(base *world) *xPKI {
 		add(host, "selfsigned", "self-signed", s.TLSCertificate(), s.Cert)
 		wn := inter.Leaf(certs.LeafOpts{DNSNames: []string{"other.example.invalid"}})
 		add(host, "wrongname", "wrong-name", wn.TLSCertificate(inter), wn.Cert, inter.Cert)
+		// chains with an unrelated CA certificate appended / inserted (group H)
+		dl := root.Leaf(certs.LeafOpts{DNSNames: []string{host}}) // issued directly by the root
+		add(host, "direct", "ok", dl.TLSCertificate(), dl.Cert)
+		add(host, "valid+unrelatedCA", "ok", with(l.TLSCertificate(inter), un), l.Cert, inter.Cert, un)
+		add(host, "unrelatedCA-before-int", "ok", with(l.TLSCertificate(), un, inter.Cert), l.Cert, un, inter.Cert)
+		add(host, "direct+unrelatedCA", "ok", with(dl.TLSCertificate(), un), dl.Cert, un)
+		add(host, "expired+unrelatedCA", "expired", with(e.TLSCertificate(inter), un), e.Cert, inter.Cert, un)
+		add(host, "wrongname+unrelatedCA", "wrong-name", with(wn.TLSCertificate(inter), un), wn.Cert, inter.Cert, un)
+		add(host, "selfsigned+unrelatedCA", "self-signed", with(s.TLSCertificate(), un), s.Cert, un)
 		p.state[host+"/plain"] = &state{name: "e2ex:no-handshake", leafKind: "none", hs: false, host: host}
 	}
 	return p
@@ -254,7 +275,25 @@ func (e *envX) publish(h *hop, ks []kind, noName bool) {
 	e.zones[tn] = mockdns.Zone{AD: true, Misc: map[miekgdns.Type][]miekgdns.RR{miekgdns.Type(miekgdns.TypeTLSA): rrs}}
 }
 
+// envOpts are the optional dimensions of an environment (zero value = groups F, G).
+type envOpts struct {
+	// clientRoots replaces the client's root pool (nil: the client trusts the
+	// root of the next hops' hierarchy, so a well-formed chain is PKIX-valid).
+	clientRoots *x509.CertPool
+	// domainPerHop: every hop is the only MX of its own recipient domain
+	// (domainOf(i)) instead of all hops being MX candidates of one domain.
+	domainPerHop bool
+	// onConnect is consulted for the greeting of every connection to hop i.
+	onConnect func(i int) *smtpd.Action
+}
+
+func domainOf(i int) string { return fmt.Sprintf("dest%d.example.invalid", i+1) }
+
 func newEnvX(pki *xPKI, specs []hopSpec, reuse bool, tag string) (*envX, error) {
+	return newEnvXOpt(pki, specs, reuse, tag, envOpts{})
+}
+
+func newEnvXOpt(pki *xPKI, specs []hopSpec, reuse bool, tag string, opt envOpts) (*envX, error) {
 	e := &envX{pki: pki, domain: e2eDomain, mutable: true}
 	var mxs []net.MX
 	e.zones = map[string]mockdns.Zone{}
@@ -285,9 +324,13 @@ func newEnvX(pki *xPKI, specs []hopSpec, reuse bool, tag string) (*envX, error) 
 		default:
 			return nil, errors.New("c13: unknown hop mode " + s.mode)
 		}
-		s := s
+		s, i := s, i
 		cfg.Script = func(ev smtpd.Event) *smtpd.Action {
 			switch ev.Stage {
+			case smtpd.StageConnect:
+				if opt.onConnect != nil {
+					return opt.onConnect(i)
+				}
 			case smtpd.StageQuit:
 				return replyAction(s.quit)
 			case smtpd.StageRset:
@@ -312,7 +355,17 @@ func newEnvX(pki *xPKI, specs []hopSpec, reuse bool, tag string) (*envX, error) 
 			return nil, err
 		}
 	}
-	e.zones[e.domain+"."] = mockdns.Zone{AD: true, MX: mxs}
+	if opt.domainPerHop {
+		for i := range mxs {
+			e.zones[domainOf(i)+"."] = mockdns.Zone{AD: true, MX: []net.MX{{Host: mxs[i].Host, Pref: 10}}}
+		}
+	} else {
+		e.zones[e.domain+"."] = mockdns.Zone{AD: true, MX: mxs}
+	}
+	roots := pki.root.Pool()
+	if opt.clientRoots != nil {
+		roots = opt.clientRoots
+	}
 
 	var err error
 	for try := 0; try < 40; try++ {
@@ -359,7 +412,7 @@ func newEnvX(pki *xPKI, specs []hopSpec, reuse bool, tag string) (*envX, error) 
 			return (&net.Dialer{}).DialContext(ctx, "tcp", h.srv.Addr())
 		},
 		ExtResolver: e.extR, Policies: []module.MXAuthPolicy{pol},
-		TLSConfig: &tls.Config{RootCAs: pki.root.Pool()}, ConnReuseLimit: limit,
+		TLSConfig: &tls.Config{RootCAs: roots}, ConnReuseLimit: limit,
 		ConnectTimeout: 20 * time.Second, CommandTimeout: 20 * time.Second, SubmissionTimeout: 20 * time.Second,
 	})
 	if err != nil {
@@ -372,13 +425,25 @@ func newEnvX(pki *xPKI, specs []hopSpec, reuse bool, tag string) (*envX, error) 
 // deliver sends one message to rcpt@domain and returns the outcome text and,
 // per hop, what arrived there since the previous call.
 func (e *envX) deliver(id string) (outcome string, delta []hopObs) {
+	outcome = e.send(id, e.domain)
+	for _, h := range e.hops {
+		now := h.observe()
+		delta = append(delta, now.minus(h.last))
+		h.last = now
+	}
+	return outcome, delta
+}
+
+// send runs one delivery of one message to rcpt@domain through the target
+// (safe to call from several goroutines at once: one remote delivery each).
+func (e *envX) send(id, domain string) (outcome string) {
 	ctx, cancel := context.WithTimeout(context.Background(), 90*time.Second)
 	defer cancel()
 	meta := &module.MsgMetadata{ID: id, OriginalFrom: "sender@origin.example.invalid", DontTraceSender: true}
 	d, err := e.tgt.Start(ctx, meta, "sender@origin.example.invalid")
 	if err != nil {
 		outcome = "start: " + err.Error()
-	} else if err := d.AddRcpt(ctx, "rcpt@"+e.domain, smtp.RcptOptions{}); err != nil {
+	} else if err := d.AddRcpt(ctx, "rcpt@"+domain, smtp.RcptOptions{}); err != nil {
 		d.Abort(ctx)
 		outcome = "rcpt: " + err.Error()
 	} else {
@@ -392,12 +457,7 @@ func (e *envX) deliver(id string) (outcome string, delta []hopObs) {
 			outcome = "accepted"
 		}
 	}
-	for _, h := range e.hops {
-		now := h.observe()
-		delta = append(delta, now.minus(h.last))
-		h.last = now
-	}
-	return outcome, delta
+	return outcome
 }
 
 // dnsServers lists the mock DNS server three times: ExtResolver.exchange moves
@@ -907,8 +967,14 @@ func multiGroup(t *testing.T, r *rep.Reporter, pki *xPKI) {
 }
 
 // e2exGroups is called from TestVerif.
-func e2exGroups(t *testing.T, r *rep.Reporter, w *world) {
+func e2exGroups(t *testing.T, r *rep.Reporter, w *world, mark func(string)) {
 	pki := newXPKI(w)
 	hostileGroup(t, r, pki)
+	mark("group F")
 	multiGroup(t, r, pki)
+	mark("group G")
+	appendedGroup(t, r, pki)
+	mark("group H")
+	concurrentGroup(t, r, pki)
+	mark("group I")
 }
